@@ -53,6 +53,10 @@ class IndexScenario(object):
         self.array(name, 'int', ln)
         a = self.arrays[name]['init']
         for k in range(MAXLEN): self.pre += [z3.Select(a, k) >= -8, z3.Select(a, k) <= 8]
+        if kind == 'imat' and not name.endswith('_conv'):
+            # an index matrix given by the caller may have any shape: column (len x 1) or row (1 x len), chosen by the solver
+            rv = z3.Int(name + '_rowvec'); self.pre += [rv >= 0, rv <= 1]
+            return self.add(Obj(name, kind, nrows=z3.If(rv == 1, z3.IntVal(1), ln), ncols=z3.If(rv == 1, ln, z3.IntVal(1)), arr=name, id=0))
         return self.add(Obj(name, kind, nrows=ln, ncols=z3.IntVal(1), arr=name, id=0))
     def mk_float(self, name):
         return self.add(Obj(name, 'float', value=z3.Real(name + '_v')))
@@ -303,7 +307,7 @@ def job(cfg):
         r = s.check(); res['solver_s'] += time.time() - t1
         v = str(r); res['obl']['total'] += 1; res['obl'][v if v in ('sat', 'unsat') else 'unknown'] += 1
         return v, (s.model() if r == z3.sat else None)
-    names = [nrows, ncols] + [z3.Int(n) for n in ('I_v', 'J_v', 'I_start', 'I_step', 'I_lgt', 'J_start', 'J_step', 'J_lgt', 'I_len', 'J_len', 'I_conv_len', 'J_conv_len', 'val_nrows', 'val_ncols')]
+    names = [nrows, ncols] + [z3.Int(n) for n in ('I_v', 'J_v', 'I_start', 'I_step', 'I_lgt', 'J_start', 'J_step', 'J_lgt', 'I_len', 'J_len', 'I_conv_len', 'J_conv_len', 'val_nrows', 'val_ncols', 'I_rowvec', 'J_rowvec')]
     def render(m):
         d = {str(n): str(m.eval(n, model_completion=True)) for n in names}
         for an in ('I', 'J', 'I_conv', 'J_conv'):
@@ -437,7 +441,9 @@ def mk(pref, kind, dim):
         return slice(st, stop if stop >= 0 else None, sp), idx, False
     key = pref if kind == 'imat' else pref + '_conv'
     n = int(m[key + '_len']); ent = [int(t) for t in m[key + '_entries']][:n]
-    if kind == 'imat': return (matrix(ent, (n, 1), 'i') if n else matrix(0, (0, 1), 'i')), ent, False
+    if kind == 'imat':
+        row = str(m.get(pref + '_rowvec', '0')) == '1'
+        return (matrix(ent, (1, n) if row else (n, 1), 'i') if n else matrix(0, (1, 0) if row else (0, 1), 'i')), ent, False
     return ent, ent, False
 def check(idx, dim):
     for i in idx:
